@@ -12,6 +12,7 @@ import PtProofs.EvalLemmas
 import PtProofs.BasicIndexLemmas
 import PtProofs.StackConcatLemmas
 import PtProofs.ReshapeLemmas
+import PtProofs.PadLemmas
 namespace Pt
 
 /-! ## re-exported slice / linearisation theorems (statements in SliceLemmas / BasicLemmas) -/
@@ -224,6 +225,28 @@ theorem lower_reshape_total (o : Lower.Order) (old new : Shape) (hprod : prod ol
   obtain ⟨e, he⟩ := reshape_total o old new hprod
   rw [he]; rfl
 
+/-! ## pad (constant mode) -/
+
+/-- `pt.pad(a, widths, constant_values=cvals)`: for ANY rank, axis lengths (also 0),
+    pad widths (also 0, asymmetric) and per-axis constants, with each upper guard
+    either the literal `axis_len + before` or a variable that the environment
+    binds to that number (symbolic axis length), the expression pytato builds
+    evaluates, at every in-bounds index of the padded shape, to NumPy's
+    `np.pad` — including the corners, where the LAST axis' constant wins in both. -/
+theorem pad_sound (a : Arr Val) (widths : List (Nat × Nat)) (cvals : List (SExpr × SExpr))
+    (bounds : List SExpr) (binds : List (String × Arr Val)) (i : Idx)
+    (hw : widths.length = a.shape.length) (hc : cvals.length = a.shape.length)
+    (hb : bounds.length = a.shape.length)
+    (hin0 : (idxEnv i binds).lookupArr "in_0" = some a)
+    (hbounds : bounds.map (eval (idxEnv i binds))
+      = (a.shape.zip widths).map fun p => Val.i ((p.1 + p.2.1 : Nat) : Int))
+    (hi : inB (Spec.padConst widths (cvals.map fun c =>
+      (eval (idxEnv i binds) c.1, eval (idxEnv i binds) c.2)) a).shape i = true) :
+    eval (idxEnv i binds) (Lower.padExpr widths cvals bounds)
+      = (Spec.padConst widths (cvals.map fun c =>
+          (eval (idxEnv i binds) c.1, eval (idxEnv i binds) c.2)) a).get i :=
+  padExpr_eval ⟨hw, hc, hb, hin0, boundsOK_of_map hw hc hb hbounds, hi⟩
+
 /-! ## non-vacuity: concrete instances satisfying the hypotheses -/
 
 /-- a 2×3 test array with entries 1..6 -/
@@ -275,5 +298,25 @@ example : prod [2, 3, 1, 4] = prod [6, 2, 2] ∧ inB [6, 2, 2] [5, 1, 0] = true
         some [⟨[2, 3], [6]⟩, ⟨[1], []⟩, ⟨[4], [2, 2]⟩]
     ∧ (Lower.reshape .C [] [1, 1]).isSome = true
     ∧ (Lower.reshape .C [2, 0] [0, 3]).isSome = true := by decide
+
+-- pad: exArr (2×3) padded by ((1,2),(2,1)) with constants ((10,20),(30,40)); constant axis
+-- lengths (literal bounds 3 and 5), and the same with axis 0 symbolic (bound `in_1` = 0-d array 3)
+def exPadScalar : Arr Val := ⟨[], fun _ => .i 3⟩
+example : ([(1, 2), (2, 1)] : List (Nat × Nat)).length = exArr.shape.length
+    ∧ (idxEnv [0, 0] [("in_0", exArr)]).lookupArr "in_0" = some exArr
+    ∧ ([SExpr.int 3, .int 5].map (eval (idxEnv [0, 0] [("in_0", exArr)]))
+        = (exArr.shape.zip [(1, 2), (2, 1)]).map fun p => Val.i ((p.1 + p.2.1 : Nat) : Int))
+    ∧ inB (Spec.padConst [(1, 2), (2, 1)] [(.i 10, .i 20), (.i 30, .i 40)] exArr).shape [4, 5] = true :=
+  ⟨rfl, rfl, by decide, by decide⟩
+example : ([SExpr.var "in_1", .int 5].map
+      (eval (idxEnv [4, 0] [("in_0", exArr), ("in_1", exPadScalar)]))
+    = (exArr.shape.zip [(1, 2), (2, 1)]).map fun p => Val.i ((p.1 + p.2.1 : Nat) : Int)) := by decide
+example : (Spec.padConst [(1, 2), (2, 1)] [(.i 10, .i 20), (.i 30, .i 40)] exArr).toList
+    = [.i 30, .i 30, .i 10, .i 10, .i 10, .i 40, .i 30, .i 30, .i 1, .i 2, .i 3, .i 40,
+       .i 30, .i 30, .i 4, .i 5, .i 6, .i 40, .i 30, .i 30, .i 20, .i 20, .i 20, .i 40,
+       .i 30, .i 30, .i 20, .i 20, .i 20, .i 40] := by decide
+example : (evalIL (Lower.padExpr [(1, 2), (2, 1)] [(.int 10, .int 20), (.int 30, .int 40)]
+      [.var "in_1", .int 5]) [5, 6] [("in_0", exArr), ("in_1", exPadScalar)]).toList
+    = (Spec.padConst [(1, 2), (2, 1)] [(.i 10, .i 20), (.i 30, .i 40)] exArr).toList := by decide
 
 end Pt
